@@ -49,6 +49,13 @@ CLAIMED["C06"] = (
     "DESIGN.md §3 C06",
 )
 
+CLAIMED["C07"] = (
+    "ast def-use analysis of the 10 assignment sites (Scenario.assign_obstacles_to_lanelets and the XML/protobuf obstacle factories): origin lookup calls of the registered set vs the stored shape assignment via reaching definitions, lookup-argument and time-step pairing, add/remove sibling agreement and totality of the removing side",
+    "Decides that at every site the ids registered on lanelets originate from the same find_lanelet_by_shape call as the stored shape assignment (centre set only under use_center_only), that shape lookups use the shape placed at the state and centre lookups that state's position with the registry/assignment time step being that state's, that add and remove helpers walk the same assignment attributes, and that deregistration uses only non-raising operations (so removing a contained obstacle cannot fail there). Geometric truth of the sets is C06; stale registrations after obstacles move are not decided.",
+    "Trusts the naming of the assignment sinks (initial_shape_lanelet_ids, shape_lanelet_assignment, ...) and find_lanelet_by_* semantics (C06).",
+    "DESIGN.md §3 C07",
+)
+
 NOT_APPLICABLE = {
     "C17": "modular arithmetic over runtime integers (%, cumsum, argmax): no sound static argument in reach; the only structural part (memo freshness) is decided under C11, and 'TrafficLight delegates to its cycle' is sufficient but not necessary, so a rule on it would fire on behaviour-preserving edits",
 }
